@@ -17,7 +17,26 @@ SortedPr == LET S == {<<pr[h], h>> : h \in live}
                 ss == SX!SetToSortSeq(S, LAMBDA x, y : x[1] < y[1] \/ (x[1] = y[1] /\ x[2] < y[2]))
             IN [i \in 1..Len(ss) |-> ss[i][1]]
 TDrain == Ev.ev = "Drain" /\ l' = l + 1 /\ Ev.d = SortedPr /\ UNCHANGED vars
+\* PopAll whose loop body pushes one more element (priority A(1)) when it receives the first one: the yielded elements
+\* ys = <<<<handle, priority>>, ...>> must be legal Pops in that order, every element comes out exactly once (also the
+\* pushed one), and the heap is empty afterwards
+RECURSIVE LegalDrain(_, _, _)
+LegalDrain(L, P, ys) == IF ys = <<>> THEN L = {}
+                        ELSE LET h == ys[1][1] IN
+                             /\ h \in L /\ P[h] = ys[1][2] /\ \A g2 \in L : P[g2] >= P[h]
+                             /\ LegalDrain(L \ {h}, P, Tail(ys))
+TPopAllPush == /\ Ev.ev = "PopAllPush" /\ l' = l + 1
+               /\ LET ys == Ev.r IN
+                  IF live = {} THEN /\ ys = <<>> /\ next <= MaxH       \* nothing to yield: the element is pushed afterwards
+                                    /\ live' = {next} /\ pr' = [pr EXCEPT ![next] = A(1)] /\ next' = next + 1
+                  ELSE /\ ys # <<>> /\ next <= MaxH
+                       /\ ys[1][1] \in live /\ pr[ys[1][1]] = ys[1][2] /\ \A g2 \in live : pr[g2] >= ys[1][2]
+                       /\ LegalDrain((live \ {ys[1][1]}) \cup {next}, [pr EXCEPT ![next] = A(1)], Tail(ys))
+                       /\ live' = {} /\ pr' = [pr EXCEPT ![next] = A(1)] /\ next' = next + 1
+               /\ last' = R("PopAllPush", <<A(1)>>, Ev.r) /\ O' = Ev.o
+
 TStep == \/ TReset
+         \/ TPopAllPush
          \/ TDrain
          \/ Ev.ev = "Push" /\ Step(Push(A(1)))
          \/ Ev.ev = "Pop" /\ Step(Pop)
